@@ -1,3 +1,5 @@
--- This module serves as the root of the `RarenaVerif` library.
--- Import modules here that should be built as part of the library.
-import RarenaVerif.Basic
+import RarenaVerif.Model.Basic
+import RarenaVerif.Model.Core
+import RarenaVerif.Model.Layout
+import RarenaVerif.Model.Handle
+import RarenaVerif.Model.Bytes
